@@ -720,6 +720,11 @@ func genProgram(r *R, f Feat) *Program {
 			ref = mid.Name
 		}
 		main.Segs = append(main.Segs, g.open("extends '"+g.ref(ref)+"'"))
+		if r.P(30) {
+			// statements of an extending child that stand outside its blocks (this engine does not run them; whatever
+			// an engine does with them, a failure there is not to be swallowed)
+			main.Segs = append(main.Segs, g.open("set topv = "+g.at("child-top-set", func() string { return g.wrapSpy(g.scalar(1)) })))
+		}
 		for i := 0; i < nb; i++ {
 			if r.P(70) {
 				b := g.at("child-block", func() string { return g.body(2) })
